@@ -2,6 +2,7 @@ package rules
 
 import (
 	"fmt"
+	"os"
 	"go/token"
 	"go/types"
 	"sort"
@@ -71,6 +72,13 @@ var extMutators = map[string]int{
 	"(*gob.Decoder).Decode":         1,
 }
 
+// mutators that also write through pointers held by their argument (ExpandParameter ends with
+// *param.Schema = *expanded): a shallow copy of a caller's object is not enough to protect the caller.
+var extDeepMutators = map[string]bool{
+	"spec.ExpandParameter": true, "spec.ExpandParameterWithRoot": true,
+	"spec.ExpandResponse": true, "spec.ExpandResponseWithRoot": true,
+}
+
 // external functions returning memory that is private to the caller (deep copies / fresh values)
 var extFresh = map[string]bool{
 	"swag.ToDynamicJSON": true, "(*loads.Document).Expanded": true, "analysis.New": false,
@@ -106,6 +114,7 @@ func holdsPointers(t types.Type, depth int) bool {
 
 type roAnalysis struct {
 	p   *core.Prog
+	fld map[string]taint // field-based heap: "Type.field" -> what was ever stored there (T1: a pointer into caller memory; T2: a struct value that aliases it)
 	val map[ssa.Value]taint
 	ret map[*ssa.Function]map[int]taint
 	why map[ssa.Value]string
@@ -138,6 +147,27 @@ func (a *roAnalysis) add(v ssa.Value, t taint, why string) bool {
 	return true
 }
 
+// fieldKey names the struct field addressed by a FieldAddr ("objectValidator.Properties").
+func fieldKey(fa *ssa.FieldAddr) string {
+	t := fa.X.Type()
+	if p, ok := t.Underlying().(*types.Pointer); ok {
+		t = p.Elem()
+	}
+	name := types.TypeString(t, func(*types.Package) string { return "" })
+	if st, ok := t.Underlying().(*types.Struct); ok && fa.Field < st.NumFields() {
+		return name + "." + st.Field(fa.Field).Name()
+	}
+	return name + fmt.Sprintf(".#%d", fa.Field)
+}
+
+func (a *roAnalysis) addField(k string, t taint) bool {
+	if a.fld[k]|t == a.fld[k] {
+		return false
+	}
+	a.fld[k] |= t
+	return true
+}
+
 // baseOfAddr follows FieldAddr/IndexAddr chains to the value whose pointee is addressed.
 func baseOfAddr(v ssa.Value) ssa.Value {
 	for d := 0; d < 20; d++ {
@@ -155,7 +185,7 @@ func baseOfAddr(v ssa.Value) ssa.Value {
 
 func InputRO(p *core.Prog, r *core.Report) {
 	const rule = "INPUT-RO"
-	a := &roAnalysis{p: p, val: map[ssa.Value]taint{}, ret: map[*ssa.Function]map[int]taint{}, why: map[ssa.Value]string{}, cg: core.BuildCallGraph(p)}
+	a := &roAnalysis{p: p, fld: map[string]taint{}, val: map[ssa.Value]taint{}, ret: map[*ssa.Function]map[int]taint{}, why: map[ssa.Value]string{}, cg: core.BuildCallGraph(p)}
 	// ---- sources ------------------------------------------------------------------
 	type src struct {
 		fn, param string
@@ -187,6 +217,19 @@ func InputRO(p *core.Prog, r *core.Report) {
 	r.Count("input_sources", nSrc)
 	r.Floor("input_sources", 12)
 
+	// expandedAnalyzer(): for a document whose references resolve (any accepted document) this is the analyzer of
+	// the validator's private expanded copy; the fallback to the caller's document is only taken after reference
+	// errors. Its result is therefore not caller-owned for the claim of C12 — provided the function still prefers
+	// the expanded copy, which is checked structurally.
+	expAn := p.Func("(*SpecValidator).expandedAnalyzer")
+	expPref := expandedPreferred(p)
+	if expAn != nil {
+		if expPref {
+			r.OK(rule, "expandedAnalyzer:prefers-private-copy", p.Pos(expAn.Pos()), "returns s.expanded.Analyzer under the test of s.expanded: operations, parameters and responses walked by the semantic rules belong to the private expanded copy for every document whose references resolve")
+		} else {
+			r.Bad(rule, "expandedAnalyzer:prefers-private-copy", p.Pos(expAn.Pos()), "expandedAnalyzer() no longer prefers the validator's private expanded copy: the rules that expand parameters and responses in place now work on the caller's document")
+		}
+	}
 	// ---- propagation to a fixpoint ------------------------------------------------------
 	for iter := 0; iter < 40; iter++ {
 		changed := false
@@ -201,6 +244,11 @@ func InputRO(p *core.Prog, r *core.Report) {
 				switch x := i.(type) {
 				case *ssa.FieldAddr:
 					t := a.get(x.X)
+					if !inputTyped(x.X.Type()) { // a field of one of the package's own objects: what the package stored there
+						if pt, ok := x.Type().Underlying().(*types.Pointer); ok && !pointerish(pt.Elem()) {
+							t |= a.fld[fieldKey(x)] &^ t1Mask // struct-valued field: its storage may be a shallow copy
+						}
+					}
 					if a.add(x, t, "") { // the address carries the flags of its base
 						changed = true
 					}
@@ -221,6 +269,15 @@ func InputRO(p *core.Prog, r *core.Report) {
 						// a struct value loaded from such memory: still carries aliasing pointers inside
 						nt = t.t1() | t.fromCopy()
 					}
+					// value loaded from a field of a package object: whatever the package ever stored in that field
+					if fa, ok := x.X.(*ssa.FieldAddr); ok && !inputTyped(fa.X.Type()) {
+						ft := a.fld[fieldKey(fa)]
+						if pointerish(x.Type()) {
+							nt |= ft // the pointer that was stored: into caller memory (T1) or to a shallow copy (T2)
+						} else if holdsPointers(x.Type(), 0) {
+							nt |= ft.fromCopy()
+						}
+					}
 					// value loaded from a local cell: whatever was stored there
 					if al, ok := x.X.(*ssa.Alloc); ok {
 						for _, ref := range core.Refs(al) {
@@ -233,6 +290,27 @@ func InputRO(p *core.Prog, r *core.Report) {
 						changed = true
 					}
 				case *ssa.Store:
+					if fa, ok := x.Addr.(*ssa.FieldAddr); ok && !inputTyped(fa.X.Type()) {
+						t := a.get(x.Val)
+						if pointerish(x.Val.Type()) {
+							if a.addField(fieldKey(fa), t) {
+								changed = true
+							}
+						} else if holdsPointers(x.Val.Type(), 0) {
+							if a.addField(fieldKey(fa), (t.t1() | t.fromCopy()).asCopy()) {
+								changed = true
+							}
+						}
+					}
+					// an element store makes a package-owned slice a container of caller pointers (a shallow copy)
+					if ia, ok := x.Addr.(*ssa.IndexAddr); ok && a.get(ia.X).t1() == 0 {
+						t := a.get(x.Val)
+						if c := (t.t1() | t.fromCopy()).asCopy(); c != 0 && (pointerish(x.Val.Type()) || holdsPointers(x.Val.Type(), 0)) {
+							if a.add(ia.X, c, "") {
+								changed = true
+							}
+						}
+					}
 					// storing a struct value that aliases caller memory into a local makes the local a shallow copy
 					if al := baseOfAddr(x.Addr); al != nil {
 						if alloc, ok := al.(*ssa.Alloc); ok {
@@ -255,10 +333,19 @@ func InputRO(p *core.Prog, r *core.Report) {
 					if a.add(x, a.get(x.X).t1(), "") {
 						changed = true
 					}
+				case *ssa.MapUpdate:
+					if a.get(x.Map).t1() == 0 {
+						t := a.get(x.Value)
+						if c := (t.t1() | t.fromCopy()).asCopy(); c != 0 && (pointerish(x.Value.Type()) || holdsPointers(x.Value.Type(), 0)) {
+							if a.add(x.Map, c, "") {
+								changed = true
+							}
+						}
+					}
 				case *ssa.Lookup:
 					t := a.get(x.X)
 					if pointerish(x.Type()) || holdsPointers(x.Type(), 0) || x.CommaOk {
-						if a.add(x, t.t1(), "element of "+describe(x.X)) {
+						if a.add(x, t.t1()|t.fromCopy(), "element of "+describe(x.X)) {
 							changed = true
 						}
 					}
@@ -389,6 +476,9 @@ func InputRO(p *core.Prog, r *core.Report) {
 						}
 					}
 				case *ssa.Return:
+					if f == expAn && expPref {
+						return // reviewed summary: the private expanded copy whenever it exists (see the obligation below)
+					}
 					if a.ret[f] == nil {
 						a.ret[f] = map[int]taint{}
 					}
@@ -413,6 +503,27 @@ func InputRO(p *core.Prog, r *core.Report) {
 		}
 	}
 
+	if dbg := os.Getenv("VCHK_TAINT"); dbg != "" {
+		for _, f := range p.Funcs {
+			core.EachInstr(f, func(i ssa.Instruction) {
+				if c, ok := i.(ssa.CallInstruction); ok {
+					if g := core.StaticCallee(c); g != nil && core.FuncName(g) == dbg {
+						for k, arg := range c.Common().Args {
+							if t := a.get(arg); t != 0 {
+								fmt.Printf("TAINT %s arg%d %s(t1) %s(copy) at %s in %s: %s\n", dbg, k, t.t1(), t.fromCopy(), p.Pos(c.Pos()), core.FuncName(f), a.why[arg])
+							}
+						}
+					}
+				}
+			})
+		}
+		var ks []string
+		for k, t := range a.fld {
+			ks = append(ks, fmt.Sprintf("FIELD %s %s(t1) %s(copy)", k, t.t1(), t.fromCopy()))
+		}
+		sort.Strings(ks)
+		fmt.Println(strings.Join(ks, "\n"))
+	}
 	// ---- writes -----------------------------------------------------------------------------
 	n, nBad := 0, 0
 	seq := map[string]int{}
@@ -505,6 +616,12 @@ func InputRO(p *core.Prog, r *core.Report) {
 					if mi, ok := arg.(*ssa.MakeInterface); ok {
 						arg = mi.X
 					}
+					if extDeepMutators[core.QualName(g)] && a.get(arg).t1() == 0 && a.get(arg).fromCopy() != 0 {
+						n++
+						nBad++
+						r.Bad(rule, mk(core.FuncName(f)+":"+core.QualName(g)+fmt.Sprintf("(#%d)", k)), p.Pos(x.Pos()), fmt.Sprintf("%s also writes through the pointers held by its argument (the schema of a parameter / response): the argument is only a shallow copy of caller-owned memory (%s), so the caller's object is rewritten", core.QualName(g), a.get(arg).fromCopy()))
+						return
+					}
 					if _, isAlloc := baseOfAddr(arg).(*ssa.Alloc); isAlloc && a.get(arg).t1() == 0 {
 						n++
 						r.OK(rule, mk(core.FuncName(f)+":"+core.QualName(g)+fmt.Sprintf("(#%d)", k)), p.Pos(x.Pos()), "mutator applied to a local object")
@@ -538,8 +655,10 @@ func (a *roAnalysis) extResult(c *ssa.Call) taint {
 	}
 	q := core.QualName(g)
 	switch q {
-	case "(*loads.Document).Spec", "(*loads.Document).Raw", "(*loads.Document).Schema":
+	case "(*loads.Document).Spec", "(*loads.Document).Raw":
 		return tDoc
+	case "(*loads.Document).Schema":
+		return tSchema // the Swagger meta-schema the caller hands in: a schema in the sense of C12
 	case "analysis.New":
 		return a.get(c.Call.Args[0]).t1() // the analyzer indexes the document it was given
 	case "swag.ToDynamicJSON", "(*loads.Document).Expanded":
